@@ -218,8 +218,29 @@ def run(ctx):
                                 ev.append({"a": "ret", "verdicts": verdicts_symeig(evals, evecs, Am, Mm, idx, 1e-7)})
                             except Exception as e:
                                 ev.append({"a": "raise", "exc": "%s: %s" % (type(e).__name__, str(e)[:100])})
-                            traces.append({"tid": tid, "cfg": {"na": na, "neig": neig, "mode": mode, "M": withM, "spectrum": spname}, "ev": ev})
+                            traces.append({"tid": tid, "cfg": {"na": na, "neig": neig, "nguess": neig, "mode": mode, "M": withM, "spectrum": spname}, "ev": ev})
                             ctx.case(key=("davidson", na, neig, mode, withM, spname))
+        # options: size and kind of the initial search space, iteration budget
+        for na, neig in ((6, 2), (9, 2), (9, 3)):
+            for o in ({"nguess": neig + 1}, {"nguess": neig + 2, "v_init": "rand"}, {"v_init": "eye"}, {"v_init": "rand"}, {"max_addition": 1}, {"nguess": na}):
+                for mode in ("lowest", "uppest"):
+                    for withM in (False, True):
+                        tid += 1
+                        log = []
+                        Am = herm(na, SPECTRA["separated"](na), (), DT, g)
+                        Mm = spd(na, (), DT, g) if withM else None
+                        ev = []
+                        try:
+                            with torch.no_grad():
+                                evals, evecs = xitorch.linalg.symeig(HermOp(Am, log), neig=neig, mode=mode, M=HermOp(Mm) if withM else None, method="davidson", min_eps=1e-10, **o)
+                            for c_ in log:
+                                ev.append({"a": "apply", "ncols": c_})
+                            idx = list(range(1, neig + 1)) if mode == "lowest" else list(range(na - neig + 1, na + 1))
+                            ev.append({"a": "ret", "verdicts": verdicts_symeig(evals, evecs, Am, Mm, idx, 1e-7)})
+                        except Exception as e:
+                            ev.append({"a": "raise", "exc": "%s: %s" % (type(e).__name__, str(e)[:100])})
+                        traces.append({"tid": tid, "cfg": {"na": na, "neig": neig, "nguess": o.get("nguess", neig), "mode": mode, "M": withM, "spectrum": "separated", "opts": {k_: str(v_) for k_, v_ in o.items()}}, "ev": ev})
+                        ctx.case(key=("davidson-opts", na, neig, mode, withM, tuple(sorted((k_, str(v_)) for k_, v_ in o.items()))))
     # fixed reproducer of the recorded finding (independent of VERIF_SEED): orientation seed 1 of the sweep in DESIGN.md 11.3
     with warnings.catch_warnings():
         warnings.simplefilter("ignore")
@@ -234,7 +255,7 @@ def run(ctx):
         except Exception as e:
             ev0 = [{"a": "raise", "exc": "%s: %s" % (type(e).__name__, str(e)[:100])}]
         if ev0[0]["a"] == "raise":
-            traces.append({"tid": tid, "cfg": {"na": 9, "neig": 2, "mode": "uppest", "M": False, "spectrum": "degenerate", "fixed": True}, "ev": ev0})
+            traces.append({"tid": tid, "cfg": {"na": 9, "neig": 2, "nguess": 2, "mode": "uppest", "M": False, "spectrum": "degenerate", "fixed": True}, "ev": ev0})
         ctx.case(key=("davidson-fixed-reproducer",))
     rej = ctx.validate_traces("Trace_Davidson.tla", "Trace_Davidson.cfg", traces, shards=8)
     bytid = {t_["tid"]: t_ for t_ in traces}
